@@ -20,7 +20,7 @@ for p, mods, corr in (
     ("C01", ["Vet.Props.Resolve"], ["corr.wire", "corr.depgraph", "corr.mapper", "corr.requirements", "corr.auditgraph", "corr.search", "corr.resolve"]),
     ("C02", ["Vet.Props.Resolve", "Vet.Props.C02Report"], ["corr.wire", "corr.depgraph", "corr.mapper", "corr.requirements", "corr.auditgraph", "corr.search", "corr.resolve"]),
     ("C03", ["Vet.Props.C03"], ["corr.wire", "corr.depgraph", "corr.mapper", "corr.requirements"]),
-    ("C04", ["Vet.Props.C04", "Vet.Props.Build", "Vet.Props.C04Keep", "Vet.Props.C11Violation"], ["corr.wire", "corr.mapper", "corr.auditgraph", "corr.resolve", "corr.update"]),
+    ("C04", ["Vet.Props.C04", "Vet.Props.Build", "Vet.Props.C04Keep", "Vet.Props.C11Violation"], ["corr.wire", "corr.mapper", "corr.auditgraph", "corr.resolve", "corr.update", "corr.cmd.wiring", "corr.cmd.ask"]),
     ("C06", ["Vet.Props.Build", "Vet.Props.C15", "Vet.Props.C06Publishers"], ["corr.wire", "corr.mapper", "corr.auditgraph", "corr.publishers"]),
     ("C12", ["Vet.Props.Resolve", "Vet.Props.C12Prune", "Vet.Props.Commands", "Vet.Props.WFCorollaries"], ["corr.wire", "corr.mapper", "corr.auditgraph", "corr.search", "corr.resolve", "corr.update", "corr.cmd.wiring"]),
 ):
